@@ -310,6 +310,31 @@ func genDoubleBlock(r *rand.Rand, w *bufio.Writer, id string) {
 	fmt.Fprintf(w, "finish\n")
 }
 
+// genRoomInFirst: the sender is busy (blocked in SendMsg); behind the message in flight a SMALL block
+// is queued (its builder has room left), then a LARGE block that does not fit that builder (next
+// builder), then small blocks again.  The later small blocks belong behind the large one: they may
+// share its message (the last builder) but must not travel in the earlier message that has room.
+func genRoomInFirst(r *rand.Rand, w *bufio.Writer, id string) {
+	small := []int{100, 1000, 20000}[r.Intn(3)]
+	large := []int{400000, 500000, 524000}[r.Intn(3)]
+	fmt.Fprintf(w, "case %s\ncfg 1073741824 1073741824 1 0 1 2 3\n", id)
+	fmt.Fprintf(w, "tx 0 b1:500\nack ok n\n") // message 0 in flight
+	fmt.Fprintf(w, "tx %d b2:%d\n", r.Intn(2), small)
+	fmt.Fprintf(w, "tx 1 b3:%d\n", large)
+	fmt.Fprintf(w, "tx %d b4:%d\n", []int{0, 2, 3}[r.Intn(3)], []int{100, 700}[r.Intn(2)])
+	if r.Intn(2) == 0 {
+		fmt.Fprintf(w, "tx 2 b5:300 e11\n")
+	}
+	switch r.Intn(3) {
+	case 0:
+		fmt.Fprintf(w, "ack ok n\nack ok n\nack ok n\n")
+	case 1:
+		fmt.Fprintf(w, "ack ok n\nack fail n\nack ok n\nack ok n\nack ok n\n")
+	default:
+	}
+	fmt.Fprintf(w, "finish\n")
+}
+
 func Gen(seed int64, n int, tier string, w *bufio.Writer) {
 	r := rand.New(rand.NewSource(seed))
 	for i := 0; i < n; i++ {
@@ -320,6 +345,9 @@ func Gen(seed int64, n int, tier string, w *bufio.Writer) {
 	}
 	for i := 0; i < 16+n/40; i++ {
 		genDoubleBlock(r, w, fmt.Sprintf("db%d", i))
+	}
+	for i := 0; i < 10+n/60; i++ {
+		genRoomInFirst(r, w, fmt.Sprintf("rf%d", i))
 	}
 	if tier == "thorough" {
 		bases := [][]string{
@@ -1654,6 +1682,20 @@ func (e *env) noteSend(res *result) {
 		for _, t := range e.txs {
 			if t.attached && t.state == 1 && t.bidx < idx {
 				res.fail("fifo", "message of builder %d sent while builder %d (transaction %d) is still queued", idx, t.bidx, t.id)
+				break
+			}
+		}
+		// no overtaking between transactions: data only ever joins the LAST builder, so nothing that is
+		// still queued in another message was handed to the queue before something in this message
+		last := 0
+		for _, t := range e.txs {
+			if t.attached && t.bidx == idx && t.buildSeq > last {
+				last = t.buildSeq
+			}
+		}
+		for _, t := range e.txs {
+			if t.attached && t.state == 1 && t.bidx > idx && t.buildSeq < last {
+				res.fail("fifo", "message of builder %d carries data queued after transaction %d (request %d), which is still queued in builder %d: later data overtook earlier data", idx, t.id, t.req, t.bidx)
 				break
 			}
 		}
